@@ -93,8 +93,9 @@ def roundTripOk (metaKeys : List Bytes) (sl : Bytes) (hs : List (Bytes × Bytes)
   rl == sl
   && o.coherent
   && hs.all (fun p => valueOk o src p.1 p.2)
-  -- exactly the sent names (ignoring case) plus metadata names, each once
-  && o.iter.all (fun n => (hs.map fun p => lower p.1).contains (lower n) || metaKeys.contains (lower n))
+  -- exactly the sent names (ignoring case) plus metadata names — the `LOWER_*` constants or any other name
+  -- with the private prefix `_` (the text fixes no closed list of sender metadata) —, each once
+  && o.iter.all (fun n => (hs.map fun p => lower p.1).contains (lower n) || metaKeys.contains (lower n) || n.head? == some 95)
   && hs.all (fun p => (o.iter.map lower).contains (lower p.1))
   && distinctCI o.iter
   && metaOk o src ((hs.find? fun p => lower p.1 == ofString "usn").map (·.2))
